@@ -20,6 +20,22 @@ OTHERS = (5, None, 1.5, ['a'], bytearray(b'abc'), memoryview(b'abc'), True,
 UERR = ('UnicodeDecodeError', 'UnicodeEncodeError')
 
 
+def widen(thorough):
+    """Thorough tier: more texts, byte strings and codec spellings."""
+    global TEXTS, BYTESV, ENCODINGS
+    if not thorough or len(TEXTS) > 8:
+        return
+    TEXTS += ('\U0001f600', 'e\u0301', 'a\u200db', '\u3042\u3044',
+              '\ufeffbom', 'line\nbreak', '\x00nul', '\udc80'[:0] + 'z' * 300,
+              '\u0130', '\u00df', 'A\u030a')
+    BYTESV += (b'\xf0\x9f\x98\x80', b'\xed\xa0\x80', b'\xc0\xaf', b'\x80',
+               b'\xff' * 3, b'a' * 300, b'\x00\xd8\x00\xdc', b'\xfe\xff\x00a',
+               b'\x1b$B', b'\x81', b'\x8f\xa2\xc2')
+    ENCODINGS += ('Latin-1', 'ISO-8859-1', 'utf_8', 'UTF8', 'utf-16',
+                  'utf-32', 'cp437', 'euc_jp', 'big5', 'utf-7', 'ASCII',
+                  'utf-8-sig', 'iso2022_jp', 'mac-roman')
+
+
 def _setup_types(kind, syms):
     def setup(interp):
         interp.types[syms[0]] = kind
@@ -99,6 +115,7 @@ def run(ctx):
     rep.rule('R16.1', 'type contracts of safe_decode / safe_encode / to_utf8')
     rep.rule('R16.2', 'to_slug output is in [a-z0-9_-] without "--" and '
              'to_slug is idempotent')
+    widen(ctx.thorough)
     _decode(ctx)
     _encode(ctx)
     _to_utf8(ctx)
